@@ -88,12 +88,14 @@ def rotate(S, d, W):
     return norm(out)
 
 
-def and_preimage(S, c, W, budget=200000):
-    """{ x : x & c in S }"""
+def and_preimage(S, c, W, budget=200000, within=None):
+    """{ x in within : x & c in S }   (within: interval set the argument is known to lie in; None = all W-bit values)"""
     out = []
     n = [0]
 
     def rec(base, k):
+        if within is not None and not inter(((base, base + (1 << k) - 1),), within):
+            return
         n[0] += 1
         if n[0] > budget:
             raise Opaque("value-set computation too large (x & %#x)" % c)
@@ -121,7 +123,28 @@ def and_preimage(S, c, W, budget=200000):
         # every value lo | sub (sub a submask of cm) lies in S when the whole hull does
         return any(a <= lo and lo + cm <= b for a, b in S_)
     rec(0, W)
-    return norm(out)
+    return norm(out) if within is None else inter(norm(out), within)
+
+
+def image_hull(t, hole, W, dom):
+    """an interval set that contains { value of t : hole in dom } (used only to prune pre-image computations)"""
+    top = ((0, (1 << W) - 1),)
+    if t == hole:
+        return dom
+    if t[0] == "cast":
+        return image_hull(t[3], hole, W, dom)
+    if t[0] == "bin":
+        cb = _const(t[3])
+        ca = _const(t[2])
+        if t[1] == "Shr" and cb is not None and ca is None:
+            return norm([(a >> cb, b >> cb) for a, b in image_hull(t[2], hole, W, dom)])
+        if t[1] == "BitAnd" and (ca is None) != (cb is None):
+            c = cb if ca is None else ca
+            return ((0, c),)
+        if t[1] == "BitXor" and (ca is None) != (cb is None):
+            x, c = (t[2], cb) if ca is None else (t[3], ca)
+            return xor_image(image_hull(x, hole, W, dom), c, W)
+    return top
 
 
 def shr_preimage(S, k, W):
@@ -187,7 +210,7 @@ def preimage(t, S, hole, W, dom):
             return preimage(x, xor_image(S, c, W), hole, W, dom)
         if op == "BitAnd" and (ca is None) != (cb is None):
             x, c = (a, cb) if ca is None else (b, ca)
-            return preimage(x, and_preimage(S, c, W), hole, W, dom)
+            return preimage(x, and_preimage(S, c, W, within=image_hull(x, hole, W, dom)), hole, W, dom)
         if op == "BitOr" and (ca is None) != (cb is None):
             x, c = (a, cb) if ca is None else (b, ca)
             # x | c = ~(~x & ~c)
@@ -208,6 +231,13 @@ def preimage(t, S, hole, W, dom):
             return preimage(x, pre, hole, W, dom)
     if k == "un" and t[1] == "Not":
         return preimage(t[2], reflect(S, W), hole, W, dom)
+    if k == "cidx" and t[1][0] == "call" and t[1][1].endswith(("::to_be_bytes", "::to_le_bytes", "::to_ne_bytes")) and len(t[1]) == 4 \
+            and isinstance(t[2], int) and t[3] is False and W % 8 == 0 and 0 <= t[2] < W // 8:
+        # byte i of the value (big-endian: from the top; little-endian and - on the little-endian targets analysed here - native: from the bottom)
+        i = t[2]
+        sh = (W // 8 - 1 - i) * 8 if t[1][1].endswith("::to_be_bytes") else i * 8
+        byte = ("bin", "BitAnd", ("bin", "Shr", t[1][3], ("int", sh, "u32")), ("int", 255, "u32"))
+        return preimage(byte, S, hole, W, dom)
     raise Opaque("not a value-set term: %r" % (t,))
 
 
@@ -221,6 +251,12 @@ def trueset(t, hole, W=32, dom=None):
         inner = trueset(t[2], hole, W, dom)
         return inter(compl(inner, W), dom)
     if k == "bin" and t[1] in ("BitAnd", "BitOr", "BitXor") and _is_bool(t[2]) and _is_bool(t[3]):
+        if t[1] == "BitAnd":
+            # a conjunction narrows the domain step by step (keeps the pre-images of low-bit tests small); either order
+            try:
+                return trueset(t[3], hole, W, trueset(t[2], hole, W, dom))
+            except Opaque:
+                return trueset(t[2], hole, W, trueset(t[3], hole, W, dom))
         x, y = trueset(t[2], hole, W, dom), trueset(t[3], hole, W, dom)
         if t[1] == "BitAnd":
             return inter(x, y)
